@@ -43,7 +43,8 @@ std::vector<nix::Variant> concrete(const std::string &t, const json &s, long bad
     for (size_t i = 0; i < L; i++) {
         long code = s[i % len];
         // the offending element sits at the stretched image of position `bad`
-        bool isBad = bad > 0 && (i == (size_t) (bad - 1) * (L / len));
+        bool isBad = (bad > 0 && bad < 10 && (i == (size_t) (bad - 1) * (L / len)))
+                     || (bad > 10 && i >= (size_t) (bad - 11) * (L / len) && i >= 1);
         v.push_back(valueOf(isBad ? otherType(t) : t, code, i));
     }
     return v;
